@@ -41,6 +41,10 @@ class Oracle:
         hit = self.cache.get(case)
         if hit and hit[0] == impl:
             return hit[1]
+        if not os.path.exists(RUNNER):
+            # the extracted specification could not be built (reported by the framework as a broken
+            # obligation); no verdict can be given
+            return "unavailable"
         try:
             p = subprocess.run([RUNNER, self.flag], input=impl + " " + case + "\n", stdout=subprocess.PIPE,
                                stderr=subprocess.DEVNULL, timeout=120, text=True)
